@@ -37,6 +37,8 @@ type Thread struct {
 	goid          int64
 	body          func()
 	Err           any // panic value
+	// depth of nested Enter sections (touched by the thread itself only)
+	depth int
 }
 
 type lockState struct {
@@ -159,6 +161,22 @@ func (x *Exec) Yield(op, key string) {
 	x.mu.Lock()
 	t.waitOp, t.waitKey = "", ""
 	x.mu.Unlock()
+}
+
+// Enter is a scheduling point for an operation that may call back into other
+// hooked operations while it holds a real lock (a cmap operation running an
+// upsert/delete callback): only the outermost operation is a point, and the
+// nesting ends when the returned function is called.
+func (x *Exec) Enter(op, key string) func() {
+	t := x.me()
+	if t == nil {
+		return func() {}
+	}
+	t.depth++
+	if t.depth == 1 {
+		x.Yield(op, key)
+	}
+	return func() { t.depth-- }
 }
 
 func (x *Exec) lock(key string) *lockState {
@@ -439,6 +457,23 @@ func (x *Exec) Threads() []*Thread { return x.threads }
 // fresh scenario on the given Exec (registering threads) and returns a check
 // function evaluated after Run. It returns the number of executions.
 func Explore(bound int, maxExecs int, mk func(x *Exec) func(x *Exec) string, report func(choices []int, msg string) bool) (execs int, complete bool) {
+	return ExploreFn(bound, maxExecs, func(prefix []int) (*Exec, string) {
+		x := NewExec(prefix)
+		check := mk(x)
+		x.Run()
+		if x.Aborted != "" || x.Deadlock != "" {
+			return x, ""
+		}
+		return x, check(x)
+	}, report)
+}
+
+// ExploreFn is Explore with the execution itself delegated to run: it must
+// build a fresh scenario on NewExec(prefix), call Run and return the finished
+// execution together with the oracle's verdict ("" = fine); a nil execution
+// stops the search (reported as incomplete). This lets a
+// harness wrap every execution (e.g. in its own testing/synctest bubble).
+func ExploreFn(bound int, maxExecs int, run func(prefix []int) (*Exec, string), report func(choices []int, msg string) bool) (execs int, complete bool) {
 	complete = true
 	var rec func(prefix []int, used int) bool
 	rec = func(prefix []int, used int) bool {
@@ -446,9 +481,11 @@ func Explore(bound int, maxExecs int, mk func(x *Exec) func(x *Exec) string, rep
 			complete = false
 			return false
 		}
-		x := NewExec(prefix)
-		check := mk(x)
-		x.Run()
+		x, verdict := run(prefix)
+		if x == nil {
+			complete = false // the harness asked to stop (internal deadline)
+			return false
+		}
 		execs++
 		msg := ""
 		switch {
@@ -457,7 +494,7 @@ func Explore(bound int, maxExecs int, mk func(x *Exec) func(x *Exec) string, rep
 		case x.Deadlock != "":
 			msg = "deadlock: " + x.Deadlock
 		default:
-			msg = check(x)
+			msg = verdict
 		}
 		if msg != "" {
 			if !report(x.Choices(), msg) {
